@@ -245,11 +245,10 @@ impl ResponseHandler {
         let mut cert_data = Vec::from(self.version.dele_prefix());
         cert_data.extend(&self.cert[&Tag::DELE]);
 
-        if self.validate_sig(pubk, sig_value, &cert_data) {
-            println!("Valid signature on DELE tag");
-        } else {
-            println!("INVALID signature on DELE tag, response may not be authentic");
-        }
+        assert!(
+            self.validate_sig(pubk, sig_value, &cert_data),
+            "INVALID signature on DELE tag, response is not authentic"
+        );
     }
 
     fn validate_srep(&self) {
@@ -258,11 +257,10 @@ impl ResponseHandler {
         let mut srep_data = Vec::from(self.version.sign_prefix());
         srep_data.extend(&self.msg[&Tag::SREP]);
 
-        if self.validate_sig(pubk, sig_value, &srep_data) {
-            println!("Valid signature on SREP tag");
-        } else {
-            println!("INVALID signature on SREP tag, response may not be authentic");
-        }
+        assert!(
+            self.validate_sig(pubk, sig_value, &srep_data),
+            "INVALID signature on SREP tag, response is not authentic"
+        );
     }
 
     fn validate_merkle(&self) {
